@@ -88,6 +88,9 @@ func classify(c Case) (labels []string, nontrivial bool) {
 		if m.K == "H" {
 			set["flush"] = true
 		}
+		if md.InCopy() {
+			set["copy-inside-batch"] = true
+		}
 		if m.K == "Q" {
 			set["simple-query-in-history"] = true
 		}
